@@ -109,7 +109,7 @@ class NaiveBayes(BayesianNetwork):
         """
         if not obs_nodes_list:
             return set()
-        return set(obs_nodes_list) | set(self.dependent)
+        return set(obs_nodes_list) | {self.dependent}
 
     def active_trail_nodes(self, start, observed=None):
         """
@@ -137,7 +137,7 @@ class NaiveBayes(BayesianNetwork):
         """
 
         if observed and self.dependent in observed:
-            return set(start)
+            return {start}
         else:
             return set(self.nodes()) - set(observed if observed else [])
 
@@ -162,11 +162,15 @@ class NaiveBayes(BayesianNetwork):
         (b \u27C2 d, c | a)
         """
         independencies = Independencies()
-        for variable in [variables] if isinstance(variables, str) else variables:
+        for variable in (
+            variables if isinstance(variables, (list, tuple)) else [variables]
+        ):
             if variable != self.dependent:
-                independencies.add_assertions(
-                    [variable, list(set(self.features) - set(variable)), self.dependent]
-                )
+                other_features = list(set(self.features) - {variable})
+                if other_features:
+                    independencies.add_assertions(
+                        [[variable], other_features, [self.dependent]]
+                    )
         return independencies
 
     def fit(self, data, parent_node=None, estimator=None):
